@@ -200,6 +200,12 @@ func (i *Importer) Commit() error {
 		}
 	case 1:
 		i.stack[0].nodeKey.nonce = 1
+		if i.stack[0].nodeKey.version < i.version {
+			// the root was written by an earlier version that is not imported: store it the way
+			// pruning stores a root that outlives its version, as (version, 0), so that the
+			// root search does not take that version for an available one
+			i.stack[0].nodeKey.nonce = 0
+		}
 		if err := i.writeNode(i.stack[0]); err != nil {
 			return err
 		}
